@@ -95,3 +95,16 @@ Theorem c07_call_isolated : forall g ld fuel name args kwargs c1 c2 b,
   st r1 = st r2 /\ bf r1 = bf r2.
 Proof. exact call_tag_isolated. Qed.
 Print Assumptions c07_call_isolated.
+
+(** render ... for: every item is rendered from the same fresh isolated copy;
+    the context an item leaves behind is dropped and only the output buffer is
+    threaded on, so nothing the partial assigns, captures or counts for one item
+    reaches the next (the defect fixed in /repo 710b4fc). *)
+Theorem c07_render_for_items_do_not_see_each_other : forall g rec body key len nsp it its i cc b,
+  let nsx := dict_set key it (dict_set s_forloop (VForLoop key len i VUndef) nsp) in
+  let r := partial_template g rec body (set_globals cc (nsx :: root_globals cc)) b true in
+  st r = SDone ->
+  render_iter g rec body key len nsp (it :: its) i cc b =
+  render_iter g rec body key len nsp its (i + 1)%Z cc (bf r).
+Proof. exact render_iter_ignores_what_an_item_leaves. Qed.
+Print Assumptions c07_render_for_items_do_not_see_each_other.
